@@ -54,6 +54,14 @@ def _run(case):
     bumps = [k * 0.5 for k in range(1, int(T / 0.5) + 2)]
     for b in bumps:
         env.schedule_event(b, -6, bump, EventType.OTHER_HIGH_PRIORITY)
+    # a second attribute changes at the same instants through events of LOWER priority than a measurement (between
+    # OTHER_LOW_PRIORITY and SENSOR): a sample taken at such an instant shows the value before the change
+    tg.u = 0
+
+    def bump_u():
+        tg.u += 1
+    for b in bumps:
+        env.schedule_event(b, -6, bump_u, EventType.SENSOR - 1)
     box = {}
     kept = []
     cb = []
@@ -65,12 +73,19 @@ def _run(case):
         def on_sense(self, sensor, time, data):
             cm.append((sensor.name if sensor is not box.get('twin') else 'twin', time, list(data)))
     c = C(None, 'cms')
+    cm2 = []
+
+    class C2(Cms):
+        def on_sense(self, sensor, time, data):
+            cm2.append((sensor.name, time))
+    c2 = C2(None, 'cms2') if case.get('cms2') else None
     os_ = OutputPartSensor(P, [AttributeProbe('quality', None), AttributeProbe('name', None)], n, 'os',
                            data_capacity=cap)
     os_.add_on_sense_callback(lambda se, t, d: ocb.append((se, t, list(d), env.now)))
 
     def make_periodic():
-        ps = PeriodicSensor(iv, [AttributeProbe('w', tg), Probe(lambda t: t.v, tg), AttributeProbe('v', tg)], 'ps',
+        ps = PeriodicSensor(iv, [AttributeProbe('w', tg), Probe(lambda t: t.v, tg), AttributeProbe('v', tg),
+                                 AttributeProbe('u', tg)], 'ps',
                             data_capacity=cap)
         box['ps'] = ps
         for i in range(case['ncb']):
@@ -92,6 +107,8 @@ def _run(case):
             c.add_sensor(ps if nm == 'ps' else os_)
         if case.get('twin_name') and 'ps' in case['cms']:
             c.add_sensor(box['twin'])
+        if c2 is not None:
+            c2.add_sensor(ps)       # a second monitoring system listens to the same sensor
     if t0:
         env.schedule_event(t0, -6, make_periodic, EventType.OTHER_HIGH_PRIORITY + 1)
     else:
@@ -127,6 +144,13 @@ def _run(case):
     if ps.data[pr[0]] != expw:
         raise Violation('C19.probe-series', f'attribute probe series {ps.data[pr[0]][-5:]} expected {expw[-5:]} '
                         f'(capacity {case["cap"]}, {len(times)} samples)')
+    def u_at(x):
+        return sum(1 for b in bumps if b < x)
+    expu = [u_at(x) for x in keep]
+    if ps.data[pr[3]] != expu:
+        raise Violation('C19.probe-series', f'series of an attribute that changes at the sampling instants through events of '
+                        f'lower priority than the measurement: {ps.data[pr[3]][-5:]}, expected the values before those '
+                        f'changes {expu[-5:]}')
     if len(ps.data[pr[1]]) != len(keep):
         raise Violation('C19.alignment', f'list-probe series has {len(ps.data[pr[1]])} entries, time series {len(keep)}')
     for x, lst in zip(keep, ps.data[pr[1]]):
@@ -146,7 +170,7 @@ def _run(case):
         raise Violation('C19.callbacks', f'on-sense callbacks (index, time) {[(x[0], x[2]) for x in cb][:6]} expected '
                         f'{exp_cb[:6]}')
     for (i, se, t_, d, now) in cb:
-        if se is not ps or t_ != now or d != [w_at(t_), list(range(0, w_at(t_) + 1)), list(range(0, w_at(t_) + 1))]:
+        if se is not ps or t_ != now or d != [w_at(t_), list(range(0, w_at(t_) + 1)), list(range(0, w_at(t_) + 1)), u_at(t_)]:
             raise Violation('C19.callback-args', f'on-sense callback {i} at {now} got (sensor ok={se is ps}, time {t_}, '
                             f'values {str(d)[:60]})')
     # ---- output part sensor: first finished part, then every (n+1)-th
@@ -180,6 +204,9 @@ def _run(case):
         if [x[1] for x in cm if x[0] == 'twin'] != tw:
             raise Violation('C19.cms', f'cms received {len([x for x in cm if x[0] == "twin"])} measurements of a second '
                             f'registered sensor that has the same name as the first, {len(tw)} were taken')
+    if c2 is not None and [x[1] for x in cm2] != times:
+        raise Violation('C19.cms', f'a second cms registered for the same periodic sensor received {len(cm2)} measurements, '
+                        f'{len(times)} were taken')
     since = [r[0] for r in sel if r[0] >= t0]       # the cms hears of measurements taken after the sensor was added
     if 'os' in case['cms'] and [x[1] for x in cm if x[0] == 'os'] != since:
         raise Violation('C19.cms', f'cms received {len([x for x in cm if x[0] == "os"])} part measurements, '
